@@ -23,7 +23,7 @@ class TheCheck(Check):
                    "carry the index / NULL / dangling / overlap / accounting logic of the models",
                    "containers covered in this revision: see the stream names in coverage.streams"]
 
-    _extra_modules = ['C11Seq', 'C11Map']     # per-family property files imported by Props/C11.lean
+    _extra_modules = ['C11Seq', 'C11Map', 'C11Harr']     # per-family property files imported by Props/C11.lean
 
     def __init__(self, tier, seed):
         super().__init__(tier, seed)
